@@ -208,6 +208,20 @@ func unpackV8(data []byte, i *int8) error {
 	return nil
 }
 
+// roundV16 converts a scaled value to the nearest 16-bit signed integer. Values outside
+// the representable range saturate at the nearest bound instead of wrapping around.
+func roundV16(f float32) int16 {
+	if f >= 32767 {
+		return 32767
+	} else if f <= -32768 {
+		return -32768
+	} else if f < 0 {
+		return int16(f - 0.5)
+	}
+
+	return int16(f + 0.5)
+}
+
 func packV16(i int16) []byte {
 	b := make([]byte, 3)
 
